@@ -50,7 +50,7 @@ func (Prop) Assumptions() []string {
 
 var writeKinds = []string{
 	"create", "create", "create_slice", "create_slice", "create_ptr_slice", "create_ptr_slice", "create_batches",
-	"create_memo", "save_memo", "create_lang", "create_langs", "save", "save", "save_slice", "update", "updates_struct", "updates_ptr", "updates_ptr", "updates_map", "updates_self", "update_column", "update_columns",
+	"create_memo", "save_memo", "create_lang", "create_langs", "create_toy", "update_toy", "create_account", "update_account", "update_lang", "save", "save", "save_slice", "update", "updates_struct", "updates_ptr", "updates_ptr", "updates_map", "updates_self", "update_column", "update_columns",
 	"delete", "delete_select", "delete_slice", "delete_pet",
 }
 
@@ -369,6 +369,24 @@ func (p Prop) checkClean(c *Case, x *execInfo) (string, string, string) {
 			if !n.Root && (isCreateKind(k) || (k == "save" && c.W.Users[0].ID == 0)) && !underDup {
 				return "hook_missing", fmt.Sprintf("%s|association|%s", k, n.Model), fmt.Sprintf("association record %s (%s, key %q) reachable from the created value saw no hook", rec, n.Model, n.PK)
 			}
+		}
+	}
+	// single-record operations on the models with hook subsets: the model's own
+	// pattern, exactly once
+	if mp, ok := map[string][2]string{
+		"create_toy": {"Toy", patCreate}, "update_toy": {"Toy", patUpdate},
+		"create_account": {"Account", patCreate}, "update_account": {"Account", patUpdate},
+		"create_lang": {"Language", patCreate}, "update_lang": {"Language", patUpdate},
+	}[k]; ok && (sr.Res.RowsAffected > 0 || strings.HasPrefix(k, "create")) {
+		want := fam.HookPattern(mp[0], mp[1])
+		var got []string
+		for _, h := range sr.Hooks {
+			if h.Model == mp[0] {
+				got = append(got, h.Hook)
+			}
+		}
+		if strings.Join(got, ",") != want {
+			return "hook_sequence", k + "|" + mp[0] + "|" + strings.Join(got, ","), fmt.Sprintf("%s of one %s ran its hooks [%s]; the hooks it defines for this operation are [%s]", k, mp[0], strings.Join(got, ","), want)
 		}
 	}
 	// a value-receiver hook has no record identity: count it per operation
